@@ -509,7 +509,7 @@ func authCmd(args []string) int {
 // C04: single-field mutations of the wire form of a valid entry
 
 var tamperFields = []string{"payload", "clock.time", "clock.id", "next", "refs", "key", "sig", "identity.id", "identity.publicKey",
-	"identity.signatures.id", "identity.signatures.publicKey", "identity.type", "id", "hash", "v"}
+	"identity.signatures.id", "identity.signatures.publicKey", "identity.type", "id", "hash", "hash-alias", "v"}
 
 func flip(b []byte) []byte {
 	o := append([]byte{}, b...)
@@ -554,6 +554,9 @@ func (a *authEnv) mutate(e *entry.Entry, field string, other cid.Cid, otherAddr 
 		m.LogID = otherAddr
 	case "hash":
 		m.Hash = other
+	case "hash-alias":
+		// another CID of the same block: same digest, raw codec
+		m.Hash = cid.NewCidV1(cid.Raw, e.Hash.Hash())
 	case "v":
 		m.V = 1
 	}
@@ -608,7 +611,6 @@ func runTamper(in *AuthInput, res *Result) {
 						return
 					}
 					m := a.mutate(e2.(*entry.Entry), field, e0.GetHash(), otherDB.Addr)
-					claimed := m.Hash
 					if pos != "head" {
 						if err := rehash(ctx, a.x, m); err != nil {
 							// cannot even be encoded: nothing to deliver
@@ -629,7 +631,7 @@ func runTamper(in *AuthInput, res *Result) {
 					hashok := realHash.Defined() && realHash.Equals(m.Hash)
 					intact := m.Verify(a.r.DB.Identity().Provider, a.rr.S.IO()) == nil
 					samedb := m.LogID == a.addr
-					unchanged := realHash.Defined() && realHash.Equals(e2.GetHash()) && claimed.Equals(m.Hash)
+					unchanged := realHash.Defined() && realHash.Equals(e2.GetHash()) && m.Hash.Equals(realHash) // the mutation left the entry and its address as they were
 					mustReject := !intact || !samedb || (pos == "head" && !hashok)
 					restartCheck := func(keys []string) string {
 						if err := a.restartReplica(); err != nil {
